@@ -13,8 +13,8 @@ from ..obs import obs, fmt
 PID = "C10"
 LEVEL = "exploration"
 RULE = (
-    "Items: 2 inert words (computed pool), 1 ordinary word that patterns can touch, 2 valid hashtags (#fun, #p_1-x), 1 time expression (one per grammar family; thorough: every grammar sentence). "
-    "Texts: every permutation of every sub-multiset containing the expression and >=1 other item (<=5 items), joined by each separator of {blank, ', ', tab, ' ; ', newline} and one mixed variant; "
+    "Items: 2 inert words (computed pool), 1 ordinary word that patterns can touch, 2 valid hashtags (pairs #fun/#p_1-x and #_x1/#Q9: every character class in first and later position), 1 time expression (one per grammar family; thorough: every grammar sentence). "
+    "Texts: every permutation of every sub-multiset containing the expression and >=1 other item (<=5 items), joined by each separator of {blank, ', ', tab, ' ; ', newline} and one mixed variant, plus '-' and en-dash between words for hashtag-free texts; "
     "each also with the expression removed (no-match path) and with each hashtag removed.  Oracle: labels == hashtags in order without '#'; no '#' or label text in the subject; subject words are a "
     "subsequence of the input's non-hashtag words; inert words all kept in order; if the returned span covers the expression none of its words is in the subject; removing hashtags changes neither "
     "resolution nor subject; on the no-match path the subject is the blank-joined non-hashtag words.  Non-trivial = text with >=3 items; distinct = distinct texts."
@@ -23,6 +23,8 @@ ASSUMPTIONS = ["valid hashtags match [A-Za-z_][A-Za-z0-9_-]*; ordinary words con
 
 TS = "2018-03-07T12:43:00"
 SEPS = [" ", ", ", "\t", " ; ", "\n"]
+DASH_SEPS = ["-", " \u2013 "]  # only between non-hashtag items ('#a-b' is one hashtag)
+TAG_PAIRS = [("#fun", "#p_1-x"), ("#_x1", "#Q9")]  # every character class in first and later position
 TAGS = ["#fun", "#p_1-x"]
 ORDINARY = "john"
 
@@ -34,7 +36,7 @@ def _items(tier):
     w1, w2 = pool[0], pool[1]
     fams = grammar.FAMILIES
     if tier == "quick":
-        exprs = [ss[0] for _, ss in fams] + ["friday 8pm-9pm", "tomorrow at 8pm"]
+        exprs = [ss[0] for _, ss in fams][:9] + ["friday 8pm-9pm"]
     else:
         exprs = [s for _, ss in fams for s in ss]
     return w1, w2, list(dict.fromkeys(exprs))
@@ -42,21 +44,27 @@ def _items(tier):
 
 def plan(tier, seed):
     w1, w2, exprs = _items(tier)
-    others = [("w", w1), ("w", w2), ("o", ORDINARY), ("t", TAGS[0]), ("t", TAGS[1])]
-
     def gen():
-        for e in exprs:
-            for k in range(1, 5):
-                for sub in itertools.combinations(others, k):
-                    items = list(sub) + [("e", e)]
-                    for perm in itertools.permutations(items):
-                        seps = SEPS if (tier == "thorough" or k >= 3) else SEPS[:2]
-                        for sep in seps:
-                            yield (tuple(perm), sep)
-                        if k >= 2:
-                            yield (tuple(perm), "MIX")
+        for pi, (t1, t2) in enumerate(TAG_PAIRS):
+            others = [("w", w1), ("w", w2), ("o", ORDINARY), ("t", t1), ("t", t2)]
+            for e in exprs:
+                for k in range(1, 5):
+                    for sub in itertools.combinations(others, k):
+                        has_tag = any(kind == "t" for kind, _ in sub)
+                        if pi > 0 and not has_tag:
+                            continue  # tag-free texts are identical for every tag pair
+                        items = list(sub) + [("e", e)]
+                        for perm in itertools.permutations(items):
+                            seps = SEPS if (tier == "thorough" or k >= 3) else SEPS[:2]
+                            for sep in seps:
+                                yield (tuple(perm), sep)
+                            if k >= 2:
+                                yield (tuple(perm), "MIX")
+                            if not has_tag:
+                                for sep in DASH_SEPS:
+                                    yield (tuple(perm), sep)
 
-    space = {"expressions": len(exprs), "other_items": 5, "separators": SEPS + ["mixed"], "inert_words": [w1, w2], "ordinary_word": ORDINARY, "hashtags": TAGS}
+    space = {"expressions": len(exprs), "other_items": 5, "separators": SEPS + ["mixed"], "inert_words": [w1, w2], "ordinary_word": ORDINARY, "hashtag_pairs": [list(t) for t in TAG_PAIRS], "dash_separators": DASH_SEPS}
     return {"space": space, "cases": gen(), "chunk": 32, "hash_distinct": True}
 
 
